@@ -683,8 +683,10 @@ def oracle(case, res, subnormal=False):
             want[y] = want.get(y, 0) + p * py
     chk("chain", want)
     W = sum(p * w[x] for x, p in m1.items() if w[x] > 0)
-    chk("condition", {x: p * w[x] / W for x, p in m1.items() if w[x] > 0} if W > 0 else {}, defined=W > 0)
-    if W > 0 and isinstance(res["condition"], list):
+    # a normaliser below the NORMAL float range (only reachable with softmax floats ~1e-300): the products
+    # p*w are subnormal and carry no relative precision; like the common mass of `&` this is outside float range
+    chk("condition", {x: p * w[x] / W for x, p in m1.items() if w[x] > 0} if W > 0 else {}, defined=W >= UNDERFLOW)
+    if W >= UNDERFLOW and isinstance(res["condition"], list):
         got = as_measure(res["condition"])
         if got is not None and not close(sum(got.values()), 1):
             bad["condition"] = "conditioning on a positive-mass event is not normalised"
@@ -711,7 +713,7 @@ def oracle(case, res, subnormal=False):
     wantx = sum(g[x] * p for x, p in m1.items())
     if isinstance(ex, (dict, str)) or not close(vlib.frac(ex), wantx, scale=sum(abs(g[x]) * p for x, p in m1.items())):
         bad["expectation"] = "expectation is not the probability-weighted sum"
-    chk("normalize", {x: p / mass1 for x, p in m1.items()} if mass1 > 0 else {}, defined=mass1 > 0)
+    chk("normalize", {x: p / mass1 for x, p in m1.items()} if mass1 > 0 else {}, defined=mass1 >= UNDERFLOW)
     if res.get("fresh_same") is False:
         bad["sample-seed"] = "an updated distribution and an equal freshly built one gave different seeded sample sequences"
     # equal seeds, equal sequences: whatever the distributions are
